@@ -409,6 +409,9 @@ impl Prop for C08 {
             }
             Outcome::Io { .. } => {}
         }
+        if s.budget_exceeded {
+            violation = None;
+        }
         let mut k = Fnv::default();
         k.str(&case.base.cfg.encode());
         k.str(&case.base.ctor.encode());
